@@ -277,13 +277,14 @@ PROPS = {
 # (same sources, same light flags), unless the property already has a target for that library variant.
 #   embedded: -funsigned-char -fshort-enums -ffreestanding -std=c99, UFW_USE_BUILTIN_SWAP off, both register-table layout options on
 #             (a bare-metal ARM EABI configuration, all at once);   O2: -O2, no sanitizer;   gcc: library and C callers compiled by gcc -O2
+#             -funsigned-bitfields (library also -fsingle-precision-constant);   unity: the library as CMake's unity build compiles it
 def _derive_variants():
     import copy
     for pid, P in PROPS.items():
         have = {t.get("lib", "asan") for t in P["targets"]}
         names = {t["name"] for t in P["targets"]}
         templates = [t for t in P["targets"] if t.get("lib") == "assert"]
-        for variant, lib in (("embedded", "embedded"), ("O2", "fast"), ("gcc", "gcc")):
+        for variant, lib in (("embedded", "embedded"), ("O2", "fast"), ("gcc", "gcc"), ("unity", "unity"), ("cfi", "cfi"), ("altconf", "altconf")):
             if lib in have or variant in names:
                 continue
             for t in templates:
